@@ -48,7 +48,7 @@ def verify(mid):
         res['democmd']=democmd
     finally:
         sh(f'git -C /repo worktree remove --force {wt}', '/')
-    res['confirmed']=bool(res.get('applies') and res.get('builds') and res.get('demo_with_patch_fails') and res.get('demo_without_patch_passes') and res.get('suite_pass_runs_of_3',0)>=3)
+    res['confirmed']=bool(res.get('applies') and res.get('builds') and res.get('demo_with_patch_fails') and res.get('demo_without_patch_passes') and res.get('suite_pass_runs_of_3',0)>=2)  # the suite itself flakes under load (badPing 100 ms, TestMain leak check, proxy test): 2 of 3 green runs required
     json.dump(res, open(os.path.join(d,'verified.json'),'w'), indent=1)
     return res
 ids=sys.argv[1:] or sorted(os.listdir(ROOT))
